@@ -249,6 +249,11 @@ async fn check_state<const N: usize>(cfg: &Cfg, dir: &Path, rec: &Recording, cs:
                 // records whose header is on disk but whose meta/data is torn are indexed when data
                 // validation is off; reading them must fail (an Err is "not served"), never return bytes
                 let complete = parse::parse_blob(&installed[path]).records.iter().filter(|r| r.header_crc_ok).count();
+                // since fix d09f8f0 a record whose meta/data is cut is not accepted by a regeneration (the blob is
+                // quarantined): the storage must not count more records than are completely present in the file
+                if c > complete && !cs.zero_fill {
+                    fail!("torn-record-counted-as-served".to_string(), format!("blob {} reports {} records but only {} records are completely present in the file after the cut", id, c, complete));
+                }
                 for r in w[..c].iter().skip(complete) {
                     torn_keys.insert(r.key);
                 }
